@@ -380,7 +380,8 @@ def vector_layer_merge_rule(ck, P):
         ck.check(not bad, "R-MERGE", "VectorLayer::merge|" + fld, "%s after merge = %s of both when both are present, otherwise whichever is present (4 cases evaluated)" % (fld, kind),
                  "VectorLayer::merge combines %s wrongly: %s" % (fld, "; ".join(bad)), ir.loc(b))
     # fields: every field of other is inserted; description: other's wins when present
-    lp = [n for n in ir.walk_nodes(b["body"]) if n.get("k") == "for" and ir.contains(n["iter"], lambda y: y.get("k") == "field" and y.get("name") == "fields" and ir.place_str(y) == "other.fields")]
+    oth = [x["hid"] for p_ in b["params"] for x in ir.pat_binds(p_) if x["name"] not in ("self", "self_")][:1]
+    lp = [n for n in ir.walk_nodes(b["body"]) if n.get("k") == "for" and ir.contains(n["iter"], lambda y: y.get("k") == "field" and y.get("name") == "fields" and oth and ir.local_hid(ir.strip(y["e"])) == oth[0])]
     okf = len(lp) == 1 and mvt.exit_counts(P, {"body": lp[0]["body"]}, lambda y: 1 if (y.get("k") == "mcall" and y.get("name") == "insert" and ir.place_str(y["recv"]) == "self.fields") else None) == {1}
     ck.check(okf, "R-MERGE", "VectorLayer::merge|fields", "every field of the merged-in layer is inserted into self.fields", "not every field of the merged-in layer is inserted", ir.loc(b))
     b = vs[0]
@@ -390,7 +391,11 @@ def vector_layer_merge_rule(ck, P):
         it = ir.strip(lp[0]["iter"])
         while it.get("k") in ("ref", "mcall") and (it.get("k") == "ref" or it.get("name") in ("iter", "into_iter")):
             it = ir.strip(it["e"] if it.get("k") == "ref" else it["recv"])
-        over = ir.place_str(it).startswith("other.0") or ir.place_str(it) == "other"
+        oth2 = [x["hid"] for p_ in b["params"] for x in ir.pat_binds(p_) if x["name"] not in ("self", "self_")][:1]
+        root_ = it
+        while root_.get("k") in ("field", "ref", "deref"):
+            root_ = ir.strip(root_["e"])
+        over = bool(oth2) and ir.local_hid(root_) == oth2[0]
         binds = {x["name"]: x["hid"] for x in ir.pat_binds(lp[0]["pat"])}
         ev = lambda y: 1 if ((y.get("k") == "mcall" and (ir.callee(y) or "").endswith("VectorLayer::merge")) or
                              (y.get("k") == "mcall" and y.get("name") == "insert" and ir.place_str(y["recv"]).startswith("self.0"))) else None
